@@ -27,6 +27,15 @@ Pow2(n) == CASE n = 0 -> 1 [] n = 1 -> 2 [] n = 2 -> 4 [] n = 3 -> 8 [] n = 4 ->
              [] n = 24 -> 16777216 [] n = 25 -> 33554432 [] n = 26 -> 67108864 [] n = 27 -> 134217728
              [] n = 28 -> 268435456 [] n = 29 -> 536870912 [] n = 30 -> 1073741824
 
+\* ---- exact dyadic numbers <<m, e>> = m * 2^e (the driver logs floats and doubles this way, m odd or 0) ----
+Abs(x) == IF x < 0 THEN -x ELSE x
+\* strip factors of two from the mantissa
+DyNorm(m, e) == IF m = 0 THEN <<0, 0>>
+                ELSE LET k == CHOOSE k \in 0..30 : m % Pow2(k) = 0 /\ (m \div Pow2(k)) % 2 # 0 IN <<m \div Pow2(k), e + k>>
+\* integer numerator of a dyadic over 2^-q (exact when e >= -q; used for values on the k / 2^q grid)
+DyOver(d, q) == d[1] * Pow2(d[2] + q)
+OnGrid(d, q) == Len(d) = 2 /\ d[2] >= -q /\ d[2] <= 20 - q
+
 \* ---- format word -------------------------------------------------------
 Major(fmt)  == (fmt \div 65536) % 4096
 Sub(fmt)    == fmt % 65536
